@@ -67,5 +67,23 @@ def step (npy : Bool) (w : World) : Op → World × Result
 
 def run (npy : Bool) (w : World) (ops : List Op) : World := ops.foldl (fun w o => (step npy w o).1) w
 
+/-! ### several paths
+
+  A sampler object is not tied to one path: every `sample()` call names its own file, while the
+  object still holds the (closed) `Samples` handle of its previous run. An operation aimed at path
+  `p` acts on path `p` only. -/
+
+/-- the directory: one `World` per path -/
+abbrev Disk := Nat → World
+
+def setPath (d : Disk) (p : Nat) (w : World) : Disk := fun q => if q = p then w else d q
+
+/-- an operation aimed at path `p` -/
+def stepAt (npy : Bool) (d : Disk) (po : Nat × Op) : Disk × Result :=
+  let r := step npy (d po.1) po.2
+  (setPath d po.1 r.1, r.2)
+
+def runAt (npy : Bool) (d : Disk) (ops : List (Nat × Op)) : Disk := ops.foldl (fun d o => (stepAt npy d o).1) d
+
 end Consent
 end HmcVerif
